@@ -26,7 +26,8 @@ def kind_of(name):
 class Check(Property):
     ID = "C06"
     PROPS_FILE = "PintModel/Props/C06.lean"
-    MODULE = "PintModel.Props.C06"
+    MODULE = "PintModel.Props.C06Conv"
+    EXTRA_PROPS_FILES = ["PintModel/Props/C06Conv.lean"]
     EXTRA_LEAN_FILES = []
     RULE = ("temperature-like units of the default registry (offset, delta, absolute) and generated offset units with "
             "random rational scale/offset: every ordered pair for conversion (exhaustive), compound containers with "
